@@ -292,3 +292,141 @@ def _mutate(s, letters, rng):
     else:
         m[i] = rng.choice(letters)
     return "".join(m)
+
+
+# ---------------------------------------------------------------- full file specs and layouts (C10-C13)
+
+def file_spec(rng, small=False):
+    """an abstract grammar *file*: everything C10 says must be read faithfully"""
+    sp = rand_grammar(rng, max_t=4, max_n=3 if small else 4, max_alt=3, max_len=4, p_prec=0.6, p_lit=0.3, p_rule_prec=0.25)
+    terms = sp["tokens"] + sp["lits"]
+    fs = dict(sp)
+    fields = ["val", "str"]
+    fs["tags"] = {s: rng.choice(fields) for s in terms + sp["nts"] if rng.random() < 0.5}
+    fs["nums"] = {}
+    used = set(ord(l[1]) for l in sp["lits"])
+    for t in sp["tokens"]:
+        if rng.random() < 0.3:
+            n = rng.choice([300, 301, 257, 1000, 65, 66, 5, 400 + len(fs["nums"])])
+            if n not in used:
+                used.add(n)
+                fs["nums"][t] = n
+    fs["prologue"] = rng.choice(["package p\nimport \"fmt\"\n", "package p\n// c\nimport \"fmt\"\nvar x = 1 % 2\n", "\n package   q \n"])
+    fs["union"] = rng.choice([" val int\n str string\n", "val int; str string", "\n\tval int\n\tstr struct{ a int }\n"])
+    fs["epilogue"] = rng.choice(["", "\n", "\nfunc GetToken() {}\n", "func f() { /* %% */ }\n// tail"])
+    acts = []
+    for r in sp["rules"]:
+        c = rng.random()
+        if c < 0.4:
+            acts.append(None)
+        elif c < 0.7:
+            acts.append("{ $$ = %d }" % rng.randrange(100))
+        else:
+            acts.append(rng.choice(["{ x := map[int]int{}; _ = x }", "{\n\t// note\n\t$$ = $$\n}", "{ if true { $$ = $$ } }", "{ /* c */ }"]))
+    fs["actions"] = acts
+    return fs
+
+
+GAPS_MIN = [" "]
+GAPS = [" ", "\n", "\t", "  \n ", " // c\n", " /* c */ ", "/**/", " /* x **/ ", "\n\n", " /* a\n b */\n"]
+
+
+def file_tokens(fs):
+    """the lexical tokens of the file as (text, glue) where glue=True means the next token may follow
+    without separator"""
+    toks = []
+
+    def add(t, glue_after=False):
+        toks.append((t, glue_after))
+    add("%{" + fs["prologue"] + "%}", True)
+    add("%union")
+    add("{" + fs["union"] + "}", True)
+    for t in fs["tokens"]:
+        add("%token")
+        if t in fs["tags"]:
+            add("<", True); add(fs["tags"][t], True); add(">", True)
+        add(t)
+        if t in fs["nums"]:
+            add(str(fs["nums"][t]))
+    for l in fs["lits"]:
+        if l in fs["tags"]:
+            add("%token"); add("<", True); add(fs["tags"][l], True); add(">", True); add(l, True)
+    for n in fs["nts"]:
+        if n in fs["tags"]:
+            add("%type"); add("<", True); add(fs["tags"][n], True); add(">", True); add(n)
+    for kind, syms in fs["prec"]:
+        add("%" + kind)
+        for s in syms:
+            add(s, s.startswith("'"))
+    add("%start"); add(fs["start"])
+    add("%%", True)
+    last = None
+    for i, r in enumerate(fs["rules"]):
+        if r["lhs"] != last:
+            if last is not None:
+                add(";", True)
+            add(r["lhs"]); add(":", True)
+            last = r["lhs"]
+        else:
+            add("|", True)
+        for s in r["rhs"]:
+            add(s, s.startswith("'"))
+        if r.get("prec"):
+            add("%prec"); add(r["prec"], r["prec"].startswith("'"))
+        if fs["actions"][i] is not None:
+            add(fs["actions"][i], True)
+    add(";", True)
+    add("%%", True)
+    return toks
+
+
+def needs_sep(a, b):
+    """two adjacent tokens fuse (or change meaning) without a separator"""
+    wa = a[-1].isalnum() or a[-1] == "_"
+    wb = b[0].isalnum() or b[0] == "_"
+    if wa and wb:
+        return True
+    if a in ("%token", "%type", "%left", "%right", "%nonassoc", "%precedence", "%prec", "%start", "%union") and wb:
+        return True
+    if a[-1] == "/" and b[0] in "/*":
+        return True
+    if a == "%" or (a.endswith("%") and b.startswith("%")):
+        return True
+    if a[-1] == "-" and b[0].isdigit():
+        return True
+    return False
+
+
+def render_file(fs, rng=None, minimal=False, drop_semi=False, drop_last_section=False):
+    toks = file_tokens(fs)
+    if drop_last_section and fs["epilogue"] == "":
+        toks = toks[:-1]      # the second %% is optional when there is no epilogue
+    out = []
+    for i, (t, glue) in enumerate(toks):
+        if drop_semi and t == ";" and rng is not None and rng.random() < 0.5:
+            # `;` is optional: but only where the next token starts a new rule (identifier ':') or ends the section
+            nxt = toks[i + 1][0] if i + 1 < len(toks) else ""
+            nxt2 = toks[i + 2][0] if i + 2 < len(toks) else ""
+            if nxt == "%%" or nxt2 == ":":
+                continue
+        out.append(t)
+        if i + 1 < len(toks):
+            nxt = toks[i + 1][0]
+            if minimal or rng is None:
+                gap = " " if (not glue or needs_sep(t, nxt)) else ""
+                if t.startswith("%") and not glue:
+                    gap = " "
+                if t == "%%" or nxt == "%%" or t.endswith("%}"):
+                    gap = "\n"
+            elif t == "%union":
+                # the header `%union {` is one lexical unit for yaccgo: only blanks between the two (DESIGN §4)
+                gap = rng.choice(["", " ", "\n", "\t", " \n "])
+            else:
+                if glue and not needs_sep(t, nxt) and rng.random() < 0.3:
+                    gap = ""
+                else:
+                    gap = "".join(rng.choice(GAPS) for _ in range(rng.randint(1, 2)))
+                    if needs_sep(t, nxt) and gap == "/**/":
+                        gap = " "
+            out.append(gap)
+    return "".join(out) + fs["epilogue"]
